@@ -61,7 +61,13 @@ def enumerate_cases(tier):
 def _case(draw):
     case = draw(gen.problem(nmin=2, nmax=17, nzmax=8, nclosure=5))
     z, _ = gen.build_profiles(case["prof"])
-    case["halo"] = draw(gen.halo(case))
+    awkward = draw(st.integers(0, 7)) == 0
+    if awkward:
+        # widths n for which n * (1.0 / n) != 1.0, so that fftfreq(n, d=1/n) is not exactly integer-valued (49, 98, 103, 107):
+        # an index computed from it with a float modulo and a truncating cast lands one slot off
+        case["nx"] = draw(st.sampled_from([49, 98, 103, 107]))
+        case["ny"] = draw(st.integers(2, 4))
+    case["halo"] = draw(gen.halo(case, kinds=("zero", "zero", "cells")) if awkward else gen.halo(case))
     px, py, _ = gen.pad_widths(case, case["halo"]["value"])
     m = draw(gen.modes(case, px, py))
     case["modes"] = [512, 512] if m is None else m
